@@ -35,6 +35,8 @@ var (
 	flagDry     = flag.Bool("dry", false, "do not write evidence or replay files (used when checking scratch variants)")
 	flagMan     = flag.Bool("manifest", false, "print MANIFEST.json for the claimed properties")
 	flagEvalAll = flag.Bool("evalall", false, "run every rule once (quick configurations) and print, per property, the violations its selectors keep; used to evaluate scratch variants quickly (writes nothing)")
+	flagPropTab = flag.Bool("proptable", false, "print the property -> rule selector table (markdown) that DESIGN.md carries")
+	flagFP      = flag.Bool("fingerprints", false, "print internal/model/pinned_fp.go for the current tree")
 	flagStrict  = flag.Bool("strict", false, "treat `fewer instances than on the unchanged tree` (floors, selectors that match nothing) as an ANALYSIS-ERROR; used when validating the checker itself")
 )
 
@@ -60,6 +62,12 @@ func main() {
 		switch {
 		case *flagMan:
 			writeManifest()
+			code = 0
+		case *flagPropTab:
+			printPropTable()
+			code = 0
+		case *flagFP:
+			printFingerprints()
 			code = 0
 		case *flagEvalAll:
 			code = evalAll()
@@ -309,7 +317,7 @@ func runProp(id, tier string) int {
 	}
 
 	obligations := nOK + nViol + nKnown
-	expl := "Static analysis (level other). Decided: " + p.Decided + " NOT decided: " + p.NotDecided
+	expl := "Static analysis (level other). Decided: " + p.Decided + p.InheritedNote() + " NOT decided: " + p.NotDecided
 	var cfgNames []string
 	for c := range perCfg {
 		cfgNames = append(cfgNames, c)
@@ -542,4 +550,53 @@ func evalAll() int {
 	}
 	fmt.Printf("VIOLATION in: %s  ANALYSIS-ERROR in: %s\n", none(fired), none(errd))
 	return 0
+}
+
+func printPropTable() {
+	esc := func(l []string) string {
+		var out []string
+		for _, r := range l {
+			out = append(out, "`"+strings.ReplaceAll(r, "|", "\\|")+"`")
+		}
+		return strings.Join(out, " · ")
+	}
+	fmt.Println("| property | own rule selectors (`RULE@a|b` = the constructs of RULE containing a or b) | inherited from the layers it is built on |")
+	fmt.Println("|---|---|---|")
+	var ids []string
+	for id := range props.All {
+		ids = append(ids, id)
+	}
+	sort.Strings(ids)
+	for _, id := range ids {
+		p := props.All[id]
+		inh := p.AllRules()[len(p.Rules):]
+		fmt.Printf("| %s | %s | %s |\n", id, esc(p.Rules), esc(inh))
+	}
+}
+
+func printFingerprints() {
+	fmt.Println("package model")
+	fmt.Println()
+	fmt.Println("// pinnedFP: construct name -> body fingerprint, per configuration, of the tree the rule tables were")
+	fmt.Println("// confirmed on. Generated by `decverif -fingerprints` (see fingerprint.go); regenerate after a")
+	fmt.Println("// fix: commit in /repo.")
+	fmt.Println("var pinnedFP = map[string]map[string]string{")
+	for _, cfg := range []string{"amd64", "purego", "386"} {
+		m := model.Load(model.Config{Name: cfg, RepoDir: *flagRepo})
+		fmt.Printf("\t%q: {\n", cfg)
+		type e struct{ n, fp string }
+		var es []e
+		for _, fn := range m.Funcs {
+			if fn.Parent() != nil {
+				continue
+			}
+			es = append(es, e{m.FuncName(fn), m.Fingerprint(fn)})
+		}
+		sort.Slice(es, func(i, j int) bool { return es[i].n < es[j].n })
+		for _, x := range es {
+			fmt.Printf("\t\t%q: %q,\n", x.n, x.fp)
+		}
+		fmt.Println("\t},")
+	}
+	fmt.Println("}")
 }
